@@ -247,6 +247,45 @@ class TestCallerAuthorization:
             c.close()
 
 
+class TestTtlIsValidated:
+    """``ttl_seconds`` is an authorization window; only a finite positive number is one."""
+
+    @pytest.mark.parametrize(
+        "ttl",
+        [float("nan"), float("inf"), float("-inf"), 0, -1, 0.0, -0.5, None, "300", True],
+        ids=["nan", "inf", "-inf", "zero", "negative", "zero-float", "negative-float", "none", "string", "bool"],
+    )
+    def test_an_unusable_ttl_is_a_server_error(self, ttl: Any) -> None:
+        """Neither forwarded (``NaN`` disables a cache) nor a cacheable 404."""
+
+        def resolver(_token: str) -> TokenIdentity | None:
+            return TokenIdentity(principal="alice@example.com", token_name="laptop", ttl_seconds=ttl)
+
+        c = _client(introspect_resolver=resolver)
+        try:
+            resp = _post(c, _PROXY, {"token": _SUBJECT})
+            assert resp.status_code == 500
+            assert b"unresolved" not in resp.content
+            assert b"alice@example.com" not in resp.content
+        finally:
+            c.close()
+
+    @pytest.mark.parametrize("ttl", [1, 300, 0.5, 10**30], ids=["one", "default", "fraction", "huge-int"])
+    def test_a_finite_positive_ttl_passes(self, ttl: Any) -> None:
+        """Ints and floats both; the check is about the value, not the type."""
+
+        def resolver(_token: str) -> TokenIdentity | None:
+            return TokenIdentity(principal="alice@example.com", ttl_seconds=ttl)
+
+        c = _client(introspect_resolver=resolver)
+        try:
+            resp = _post(c, _PROXY, {"token": _SUBJECT})
+            assert resp.status_code == 200
+            assert json.loads(resp.content)["ttl_seconds"] == ttl
+        finally:
+            c.close()
+
+
 class TestUniformRejection:
     """Rejections must not confirm which credentials exist."""
 
